@@ -202,6 +202,11 @@ func (c *SConn) Close() error {
 	})
 	return nil
 }
+
+// CloseWrite ends only this end's outgoing direction (the peer reads what was written, then
+// EOF); the peer's writes keep succeeding, as they do on a network whose other end has gone.
+func (c *SConn) CloseWrite() { c.Out.closeWrite() }
+
 func (c *SConn) LocalAddr() net.Addr { return sAddr(c.name) }
 func (c *SConn) RemoteAddr() net.Addr {
 	if c.Peer != "" {
